@@ -38,6 +38,8 @@ def configs(tier):
     for cls in ("calling-gibbs", "calling-mh"):  # CallingMCMC.fit -> greedy_caller / mcmc_sampler
         out.append(dict(group="class-wiring", cls=cls, step="wiring", P=1, A=1))
         out.append(dict(group="refit", cls=cls, step="wiring", P=1, A=1))  # a reused model object: nothing of sample 1 reaches sample 2's sampler
+    for same in (False, True):  # mchap call: every sample's sampler is built from that sample's own ploidy / inbreeding / reads (also when two samples share a ploidy)
+        out.append(dict(group="prog-wiring", prog="call", order=3, same_ploidy=same, step="wiring", P=1, A=1))
     out.append(dict(group="cli-attrs", prog="call", step="wiring", P=1, A=1))  # argv -> program attributes (inbreeding, chains, steps, burn, seed, prior tag)
     out.append(dict(group="llk-cache", step="wiring", P=1, A=1))  # the memoised likelihood the moves consume (shared with C09)
     for lp in ("calling-loop", "calling-loop-nocache"):  # mcmc_sampler -> compound_step, trace bookkeeping
@@ -85,11 +87,11 @@ def run_config(c, col):
         E.reset_modules()
         E.cfg.concrete_ints = True
         return c09.run_calling_dict_cache(col)
-    if c.get("group") in ("class-wiring", "loop-wiring", "refit", "cli-attrs"):
+    if c.get("group") in ("class-wiring", "loop-wiring", "refit", "cli-attrs", "prog-wiring"):
         from checks import wiring
 
         E.use_summaries(True)
-        return {"class-wiring": wiring.run_class, "loop-wiring": wiring.run_loop, "refit": wiring.run_refit, "cli-attrs": wiring.run_cli_attrs}[c["group"]](c, col)
+        return {"class-wiring": wiring.run_class, "loop-wiring": wiring.run_loop, "refit": wiring.run_refit, "cli-attrs": wiring.run_cli_attrs, "prog-wiring": wiring.run}[c["group"]](c, col)
     cm = _harness()
     if c["step"] == "compound":
         return _run_compound(c, col, cm)
@@ -281,10 +283,10 @@ def replay(v):
         from checks import c09
 
         return c09._replay_wrappers(v)
-    if v["config"].get("group") in ("class-wiring", "loop-wiring", "refit", "cli-attrs"):
+    if v["config"].get("group") in ("class-wiring", "loop-wiring", "refit", "cli-attrs", "prog-wiring"):
         from checks import wiring
 
-        return wiring.replay_real(v, {"class-wiring": wiring.run_class, "loop-wiring": wiring.run_loop, "refit": wiring.run_refit, "cli-attrs": wiring.run_cli_attrs}[v["config"]["group"]])
+        return wiring.replay_real(v, {"class-wiring": wiring.run_class, "loop-wiring": wiring.run_loop, "refit": wiring.run_refit, "cli-attrs": wiring.run_cli_attrs, "prog-wiring": wiring.run}[v["config"]["group"]])
     c = v["config"]
     m = v.get("model") or {}
     if c["step"] == "compound":
